@@ -226,12 +226,13 @@ theorem keccak_rho_offsets : (List.range 25).map (fun i => KeccakStd.offset (i %
 /-- the step function of the C code is χ of GOST R 34.11-94 -/
 theorem gost_step_is_standard (h m : Gost.W8) : Gost.step h m = GostStd.chi h m := GostProof.step_eq_chi h m
 
-/-- its parts: the three blocks of unrolled XOR formulas are `M ⊕ ψ^12 (S)`, `H ⊕ ψ (U)`, `ψ^61 (V)`;
+/-- its parts (`GostProof.lfsr12` … are the source-order pieces of `Gost.step`, tied to it by `GostProof.step_parts`):
+    the three blocks of unrolled XOR formulas are `M ⊕ ψ^12 (S)`, `H ⊕ ψ (U)`, `ψ^61 (V)`;
     `P_GOST_3411_P` is the byte permutation φ; the unrolled rounds are `E`; the in-place key generation is A / C2…C4 -/
 theorem gost_step_parts (x y : Gost.W8) (d0 d1 : UInt32) :
-    Gost.lfsr12 x y = GostStd.xor8 y (GostStd.psiPow 12 x) ∧ Gost.lfsr1 x y = GostStd.xor8 y (GostStd.psiPow 1 x) ∧
-    Gost.lfsr61 x = GostStd.psiPow 61 x ∧ Gost.transP x = GostStd.P x ∧
-    Gost.encrypt d0 d1 x = GostStd.E x d0 d1 ∧ Gost.keyGenW x y = GostStd.keyW x y :=
+    GostProof.lfsr12 x y = GostStd.xor8 y (GostStd.psiPow 12 x) ∧ GostProof.lfsr1 x y = GostStd.xor8 y (GostStd.psiPow 1 x) ∧
+    GostProof.lfsr61 x = GostStd.psiPow 61 x ∧ Gost.transP x = GostStd.P x ∧
+    Gost.encrypt d0 d1 x = GostStd.E x d0 d1 ∧ GostProof.keyGenW x y = GostStd.keyW x y :=
   ⟨GostProof.lfsr12_eq x y, GostProof.lfsr1_eq x y, GostProof.lfsr61_eq x, GostProof.transP_eq x,
    GostProof.encrypt_eq d0 d1 x, GostProof.keyGenW_eq x y⟩
 
